@@ -197,7 +197,7 @@ func archetype(d *driver, name string, nested bool) distsys.MPCalArchetype {
 			if _, err := iface.Read(h, nil); err != nil {
 				return err
 			}
-			time.Sleep(200 * time.Microsecond)
+			time.Sleep(time.Millisecond)
 			return iface.Goto(loop)
 		}
 	} else {
